@@ -763,6 +763,10 @@ type c19RspExpect struct {
 	// map declared then). As the statement is silent about those states, each of them - and
 	// `trailer`, the one of `fields` - is accepted, whichever of the field lists the section shows.
 	altTrailers []http.Header
+	// bodyUnjudged: one of the states of the header map that the final section may show carried a
+	// Content-Length that disagrees with what the handler wrote; what happens to such a body is
+	// another property's business, whichever of the states the section shows
+	bodyUnjudged bool
 }
 
 func c19SectionOf(status int, fs []c19Field, h http.Header) c19RspExpect {
@@ -1037,7 +1041,7 @@ func c19JudgeRspWire(pfx, at string, wire []byte, valid bool, sections []c19RspE
 			continue
 		}
 		// body and trailers
-		skipBody := view.HasCL && c19ModelCL(view) != int64(len(wantBody)) // a Content-Length mismatch is another property's business
+		skipBody := sec.bodyUnjudged || view.HasCL && c19ModelCL(view) != int64(len(wantBody)) // a Content-Length mismatch is another property's business
 		body, err := io.ReadAll(res.Body)
 		if err != nil && !skipBody {
 			return "", explore.Failf(pfx+"/body-or-trailer-rejected:"+c19ShortErr(err)+at,
